@@ -24,27 +24,6 @@ VARIABLES l,      \* index of the next event
           cov     \* set of <<row index, expected outcome class>> seen so far (coverage accounting)
 vars == <<l, cov>>
 
-StdoutPrefix == <<115, 116, 100, 111, 117, 116, 58>>      \* "stdout:"
-(* console bytes and captured messages of one step: only the MES write call emits anything; *)
-(* its bytes appear once on the console and as one stdout: message (an empty write may      *)
-(* announce nothing)                                                                        *)
-ConOK(e, x) ==
-  /\ e.con = x.con
-  /\ IF x.sys = "write" THEN e.msgs = <<StdoutPrefix \o x.con>> \/ (Len(x.con) = 0 /\ e.msgs = <<>>)
-     ELSE e.msgs = <<>>
-
-(* which fields of the expectation are wrong (for the report) *)
-Diffs(e, s, x) ==
-  (IF e.res # x.res THEN <<"res">> ELSE <<>>)
-  \o (IF e.res = "ok" /\ x.res = "ok" THEN
-        (IF ErOf(e.post) # x.er THEN <<"er">> ELSE <<>>)
-        \o (IF (CcrOf(e.post) & x.cm) # (x.ccr & x.cm) THEN <<"ccr">> ELSE <<>>)
-        \o (IF e.post[18] # x.pc \div P16 \/ e.post[19] # x.pc % P16 THEN <<"pc">> ELSE <<>>)
-        \o (IF ~(\E w \in x.wr : WrOK(w, e.wr, s.mem)) THEN <<"wr">> ELSE <<>>)
-        \o (IF ~ConOK(e, x) THEN <<"con">> ELSE <<>>)
-        \o (IF x.cyc >= 0 /\ e.st # x.cyc THEN <<"st">> ELSE <<>>)
-      ELSE <<>>)
-
 (***************************************************************************)
 (* per-property acceptance of one single-step case                          *)
 (***************************************************************************)
@@ -63,10 +42,6 @@ CaseOK(e, s, x) ==
          ELSE IF x.res = "err" THEN e.res = "err"
          ELSE e.res # "panic"
     [] OTHER -> FALSE
-
-CovName(i) == IF i > 0 THEN Forms[i].id ELSE IF i = 0 THEN "undefined" ELSE IF i = -1 THEN "fetch-fault"
-              ELSE IF i = -2 THEN "cost-undefined" ELSE IF i = -3 THEN "cost" ELSE "other"
-RowName(x) == IF x.row > 0 THEN Forms[x.row].id ELSE IF x.row = 0 THEN "undefined" ELSE "fetch-fault"
 
 Report(kind, e, s, x, extra) ==
   PrintT(kind \o " " \o ToJson([id |-> e.id, prop |-> PROP, row |-> RowName(x), exp |-> x.res, got |-> e.res,
